@@ -1,35 +1,154 @@
-"""C09 (image iterator half, validation only): paired cached / uncached `ImageIterator`
-runs over a synthetic animated GIF; frames are compared as strings (reported as equal /
-index of first difference), with `image.set_size` between frames and seeks."""
+"""C09, image iterator half: paired caching / non-caching `ImageIterator` runs of one history
+over two instances of the same animated source.
+
+Source kinds (`source`): "pil" = a PIL image decoded from bytes (no file), "pil_file" = a PIL
+image the caller opened from a file, "file" = `from_file(path)` (the library opens the file
+itself, the iterator holds an open image of its own), "url" = `from_url(...)` (served by a stub
+of `requests.get`; the library keeps a temp file).  Formats GIF / WEBP, written to a temp dir
+that is removed when the driver exits.
+
+Per operation and run: outcome code (0 frame, 1 StopIteration, 2 an exception out of next(),
+4 seek ok, 5 seek ValueError, 6 seek before the first frame, 7 seek on a closed iterator,
+8 close, 9 size / terminal change), the frame (numbered per case: equal strings = equal numbers),
+image.tell(), loop_no, images the library opened for the iterator and has not closed, and the
+RENDER REQUESTS of the operation: every call of `image._render_image` as (image._seek_position,
+index of image.rendered_size, "the PIL image handed over was already closed").
+
+Everything reported is an integer, a bool, a short string or a list of those."""
 import implenv
 from implenv import tests
 
+import atexit
 import hashlib
 import io
+import os
+import shutil
+import tempfile
 
 from PIL import Image
+from term_image.exceptions import TermImageError
 from term_image.image import BlockImage, ImageIterator, ITerm2Image, KittyImage
+from term_image.image import common as _common
 
 tests.set_cell_size((10, 20))
 STYLES = {"block": BlockImage, "kitty": KittyImage, "iterm2": ITerm2Image}
 for cls in (KittyImage, ITerm2Image):
     cls._supported = True
 
+TMP = tempfile.mkdtemp(prefix="c09img-")
+atexit.register(shutil.rmtree, TMP, ignore_errors=True)
+REAL_OPEN = Image.open
+REAL_CLOSE = Image.Image.close
+_BYTES = {}
 
-def gif(n):
+
+def frames_of(n):
     frames = []
     for i in range(n):
         im = Image.new("RGB", (8, 4), (40 * i + 10, 255 - 50 * i, 17 * i))
         for x in range(8):
             im.putpixel((x, i % 4), (255, 255, 255))
         frames.append(im)
-    buf = io.BytesIO()
-    frames[0].save(buf, format="GIF", save_all=True, append_images=frames[1:], duration=20, loop=0)
-    buf.seek(0)
-    return Image.open(buf)
+    return frames
 
 
-SIZES = {}  # rendered sizes seen at a next() of the caching run -> hash(rendered_size), the cache's key
+def source_bytes(n, fmt):
+    """-> (path of the file in the temp dir, its content)"""
+    key = (n, fmt)
+    if key not in _BYTES:
+        frames = frames_of(n)
+        kw = dict(save_all=True, append_images=frames[1:], duration=20, loop=0)
+        if fmt == "WEBP":
+            kw["lossless"] = True
+        path = os.path.join(TMP, f"anim{n}.{fmt.lower()}")
+        frames[0].save(path, format=fmt, **kw)
+        with open(path, "rb") as f:
+            _BYTES[key] = (path, f.read())
+    return _BYTES[key]
+
+
+class _Response:
+    status_code = 200
+
+    def __init__(self, content):
+        self.content = content
+
+
+class _Requests:
+    """what `from_url` needs of `requests`: get(url, stream=True) -> .status_code, .content"""
+
+    def __init__(self, content):
+        self._content = content
+
+    def get(self, url, **kw):
+        return _Response(self._content)
+
+
+def construct(case):
+    """-> (image, the caller's PIL image or None)"""
+    cls = STYLES[case["style"]]
+    kind, fmt = case.get("source", "pil"), case.get("fmt", "GIF")
+    path, content = source_bytes(case["frames"], fmt)
+    kw = {} if case.get("dyn") else {"width": 4}
+    keep = None
+    if kind == "file":
+        image = cls.from_file(path, **kw)
+    elif kind == "url":
+        saved = _common.requests
+        _common.requests = _Requests(content)
+        try:
+            image = cls.from_url("http://c09.invalid/" + os.path.basename(path), **kw)
+        finally:
+            _common.requests = saved
+    elif kind == "pil_file":
+        keep = REAL_OPEN(path)
+        image = cls(keep, **kw)
+    else:
+        keep = REAL_OPEN(io.BytesIO(content))
+        image = cls(keep, **kw)
+    return image, keep
+
+
+class OpenTracker:
+    """Image.open / Image.close pairing while an iterator lives (every opened image is kept
+    referenced: nothing is closed by the garbage collector)."""
+
+    def __init__(self):
+        self.opened, self.closed = [], set()
+
+    def __enter__(self):
+        tr = self
+
+        def opener(*a, **kw):
+            im = REAL_OPEN(*a, **kw)
+            tr.opened.append(im)
+            return im
+
+        def closer(self_):
+            tr.closed.add(id(self_))
+            return REAL_CLOSE(self_)
+
+        Image.open = opener
+        Image.Image.close = closer
+        return self
+
+    def __exit__(self, *a):
+        Image.open = REAL_OPEN
+        Image.Image.close = REAL_CLOSE
+
+    def unclosed(self):
+        return sum(1 for im in self.opened if id(im) not in self.closed)
+
+
+SIZES = {}  # rendered size -> [index, hash(rendered_size)], per case, shared by the two runs
+
+
+def size_index(image):
+    rs = image.rendered_size
+    key = (int(rs[0]), int(rs[1]))
+    if key not in SIZES:
+        SIZES[key] = [len(SIZES), hash(rs)]
+    return SIZES[key][0]
 
 
 def hash_box_injective():
@@ -38,55 +157,99 @@ def hash_box_injective():
 
 
 def run_one(case, cached):
-    import os
-    from term_image.image import common as _common
-    img = gif(case["frames"])
     saved_ts = _common.get_terminal_size
     _common.get_terminal_size = lambda: os.terminal_size((80, 30))
-    # "dyn": the image keeps its default DYNAMIC size (follows the terminal size)
-    image = STYLES[case["style"]](img) if case.get("dyn") else STYLES[case["style"]](img, width=4)
+    image, keep = construct(case)
+    fail = case.get("fail")  # [frame number, rendered width]: rendering that frame at that width fails
+    res = {"rows": [], "reqs": [], "exc": [], "closed_src": 0}
+    cur = []
+    tracker = OpenTracker()
+    real_render = image._render_image
+
+    def logged(img, alpha, **kw):
+        k = image._seek_position
+        was_closed = id(img) in tracker.closed
+        cur.append([k, size_index(image), was_closed])
+        res["closed_src"] += was_closed
+        if fail and k == fail[0] and image.rendered_width == fail[1]:
+            raise RuntimeError("injected render failure")
+        return real_render(img, alpha, **kw)
+
+    image._render_image = logged
+    it = None
     try:
-        it = ImageIterator(image, case["repeat"], case.get("spec", ""), cached)
-    except Exception as e:  # noqa: BLE001
-        _common.get_terminal_size = saved_ts
-        img.close()
-        return [["ctor", type(e).__name__]]
-    out, started = [], False
-    try:
-        for o in case["ops"]:
-            if o[0] == "term":  # the terminal is resized
-                cols, lines = o[1]
-                _common.get_terminal_size = lambda cols=cols, lines=lines: os.terminal_size((cols, lines))
-                out.append(["K"])
-                continue
-            if o[0] == "next":
-                try:
-                    fr = next(it)
-                    started = True
-                    if cached is not False:
-                        rs = image.rendered_size
-                        SIZES[(int(rs[0]), int(rs[1]))] = hash(rs)
-                    out.append(["F", hashlib.sha1(fr.encode()).hexdigest()[:16], image.tell(), it.loop_no])
-                except StopIteration:
-                    out.append(["S", it.loop_no])
-                except Exception as e:  # noqa: BLE001 — e.g. a frame that does not fit the padding
-                    out.append(["E", type(e).__name__])
-            elif o[0] == "size":
-                image.set_size(width=o[1][0])
-                out.append(["K"])
-            elif o[0] == "seek":
-                if not started:
-                    out.append(["skip"])
-                    continue
-                try:
-                    it.seek(o[1])
-                    out.append(["K"])
-                except Exception as e:  # noqa: BLE001
-                    out.append(["E", type(e).__name__])
+        with tracker:
+            try:
+                it = ImageIterator(image, case["repeat"], case.get("spec", ""), cached)
+            except Exception as e:  # noqa: BLE001
+                res["ctor"] = type(e).__name__
+                return res
+            res["ctor"] = "ok"
+            res["cache_on"] = bool(it._cached)
+            res["n"] = image.n_frames
+            res["z0"] = size_index(image)
+            for o in case["ops"]:
+                del cur[:]
+                code, frame, exc = 9, -1, ""
+                if o[0] == "term":  # the terminal is resized
+                    cols, lines = o[1]
+                    _common.get_terminal_size = lambda cols=cols, lines=lines: os.terminal_size((cols, lines))
+                elif o[0] == "size":
+                    image.set_size(width=o[1][0])
+                elif o[0] == "next":
+                    try:
+                        fr = next(it)
+                        code, frame = 0, hashlib.sha1(fr.encode()).hexdigest()[:16]
+                    except StopIteration:
+                        code = 1
+                    except Exception as e:  # noqa: BLE001 — e.g. a frame that does not fit the padding
+                        code, exc = 2, type(e).__name__
+                elif o[0] == "seek":
+                    try:
+                        it.seek(o[1])
+                        code = 4
+                    except ValueError:
+                        code = 5
+                    except TermImageError as e:
+                        code = 6 if "not yet started" in str(e) else 7
+                    except Exception as e:  # noqa: BLE001
+                        code, exc = 2, type(e).__name__
+                elif o[0] == "close":
+                    it.close()
+                    code = 8
+                loop_no = it.loop_no
+                res["rows"].append([code, frame, image.tell(), -99 if loop_no is None else loop_no,
+                                    tracker.unclosed(), size_index(image)])
+                res["reqs"].append([list(r) for r in cur])
+                res["exc"].append(exc)
     finally:
-        it.close()
-        img.close()
-        _common.get_terminal_size = saved_ts
+        try:
+            if it is not None:
+                it.close()
+        finally:
+            image.__dict__.pop("_render_image", None)
+            image.close()
+            if keep is not None:
+                keep.close()
+            _common.get_terminal_size = saved_ts
+    return res
+
+
+def number_frames(a, b):
+    ids = {}
+    for run in (b, a):  # the non-caching run first: its frames get the small numbers
+        for row in run["rows"]:
+            if row[1] != -1:
+                row[1] = ids.setdefault(row[1], len(ids))
+    return len(ids)
+
+
+def legacy(run):
+    out = []
+    for row, exc in zip(run.get("rows", []), run.get("exc", [])):
+        c = row[0]
+        out.append(["F", row[1], row[2], row[3]] if c == 0 else ["S", row[3]] if c == 1 else ["E", exc] if c == 2
+                   else ["K"] if c in (4, 8, 9) else ["E", {5: "ValueError"}.get(c, "TermImageError")])
     return out
 
 
@@ -94,13 +257,26 @@ def run_case(case):
     SIZES.clear()
     a = run_one(case, case["cached"])
     b = run_one(case, False)
-    first = next((i for i, (x, y) in enumerate(zip(a, b)) if x != y), None)
-    return {"equal": a == b, "first_diff": first, "frames": sum(1 for x in a if x[0] == "F"),
-            "cached": a if a != b else None, "uncached": b if a != b else None,
-            "sizes": [[w, h, hv] for (w, h), hv in sorted(SIZES.items())], "hash_box_injective": BOX_OK}
+    if a.get("ctor") != "ok" or b.get("ctor") != "ok":
+        return {"equal": a.get("ctor") == b.get("ctor"), "first_diff": None if a.get("ctor") == b.get("ctor") else -1,
+                "frames": 0, "ctor": [a.get("ctor"), b.get("ctor")], "cached": None, "uncached": None,
+                "sizes": [], "hash_box_injective": BOX_OK}
+    number_frames(a, b)
+    seen_a = [r[:4] + [e] for r, e in zip(a["rows"], a["exc"])]
+    seen_b = [r[:4] + [e] for r, e in zip(b["rows"], b["exc"])]
+    first = next((i for i, (x, y) in enumerate(zip(seen_a, seen_b)) if x != y), None)
+    return {"equal": seen_a == seen_b, "first_diff": first, "frames": sum(1 for r in a["rows"] if r[0] == 0),
+            "ctor": ["ok", "ok"],
+            "cached": legacy(a) if seen_a != seen_b else None, "uncached": legacy(b) if seen_a != seen_b else None,
+            "runs": {"cached": a, "uncached": b},
+            "sizes": [[w, h, v[1]] for (w, h), v in sorted(SIZES.items(), key=lambda kv: kv[1][0])],
+            "hash_box_injective": BOX_OK}
 
 
 BOX_OK = hash_box_injective()
 
 if __name__ == "__main__":
-    implenv.write_results([run_case(c) for c in implenv.read_cases()])
+    try:
+        implenv.write_results([run_case(c) for c in implenv.read_cases()])
+    finally:
+        shutil.rmtree(TMP, ignore_errors=True)
